@@ -5,7 +5,14 @@
    the frame graph (model Graph/Cycle.v::active_edges_single_cycle with prim = true, property C06; the native
    node means Cycle.gsem_c06).  No rank / root variables are declared; everything else solve_masyu posts is
    unchanged (Masyu.v::masyu_constraints; the circle constraints only mention the frame variables, whose ids do
-   not move).  Same error points as Masyu.v::solve_masyu_model.
+   not move).
+   Error points: as Masyu.v::solve_masyu_model, except for boards with height <= 0 AND width <= 0 (the frame of
+   height - 1 x width - 1 cells then has two negative dimensions): the auxiliary-variable route raises ValueError
+   there (int_array(0, 0, -1) inside the graph call for height = 0 or width = 0) while the native route runs
+   through (CyclePrimCompose.frame_cycle_prim_z; the loops over the cells are empty).  For height = width = 0 the
+   program is the single native node over the empty graph, it has the empty reading as its only one, and the
+   rules accept exactly the empty answer on the board without cells: the theorem covers this case too.  Exactly
+   one of height, width <= 0: ValueError from Array2D.__init__, as before.
    Theorem masyu_exact_prim: same statement as MasyuProofs.masyu_exact, for the evaluator gsem_c06; the graph
    side is CyclePrimCompose.cycle_frame_prim_compose. *)
 From Coq Require Import ZArith List Bool Arith Lia.
@@ -18,9 +25,7 @@ Local Open Scope nat_scope.
 
 Definition solve_masyu_model_prim (pb : problem) : res state :=
   let h := dim pb 0 in let w := dim pb 1 in
-  if ((getz (sec pb 0) 0 <? 1) || (getz (sec pb 0) 1 <? 1))%Z then Err ValueError
-  else
-  match frame_cycle_prim (h - 1) (w - 1) with
+  match frame_cycle_prim_z (getz (sec pb 0) 0 - 1) (getz (sec pb 0) 1 - 1) with
   | Ok (st1, _) =>
       if Nat.ltb (length (sec pb 1)) (h * w) then Err IndexError
       else Ok (ensure st1 (masyu_constraints h w (sec pb 1)))
@@ -46,11 +51,16 @@ Proof.
   change (getz [Z.of_nat h; Z.of_nat w] 0) with (Z.of_nat h).
   change (getz [Z.of_nat h; Z.of_nat w] 1) with (Z.of_nat w).
   destruct (masyu_dims h w [circ]) as [-> ->].
-  destruct h as [|h]; [intros H; discriminate H|].
-  destruct w as [|w]; [rewrite orb_true_r; intros H; discriminate H|].
-  replace ((Z.of_nat (S h) <? 1) || (Z.of_nat (S w) <? 1))%Z with false
-    by (symmetry; apply orb_false_iff; split; apply Z.ltb_ge; lia).
-  replace (S h - 1) with h by lia. replace (S w - 1) with w by lia.
+  destruct h as [|h]; [destruct w as [|w]|destruct w as [|w]].
+  2:{ rewrite frame_cycle_prim_z_one_neg by lia. intros H; discriminate H. }
+  2:{ rewrite frame_cycle_prim_z_one_neg by lia. intros H; discriminate H. }
+  { (* the board without cells *)
+    change (Z.of_nat 0 - 1)%Z with (-1)%Z. rewrite frame_cycle_prim_z_empty. cbn [Nat.mul Nat.ltb Nat.leb]. intros Hst. inversion Hst; subst st. clear Hst.
+    change (n_lattice_edges 0 0) with 0.
+    rewrite (empty_avc_models (masyu_constraints 0 0 circ) ans eq_refl).
+    destruct ans as [|a r]; [split; reflexivity|]. split; intros H; discriminate H. }
+  replace (Z.of_nat (S h) - 1)%Z with (Z.of_nat h) by lia. replace (Z.of_nat (S w) - 1)%Z with (Z.of_nat w) by lia.
+  rewrite frame_cycle_prim_z_nat.
   destruct (frame_cycle_prim h w) as [[st1 res]|e] eqn:Hcall; [|discriminate].
   destruct (Nat.ltb (length circ) (S h * S w)); [discriminate|].
   intros Hst. inversion Hst; subst st. clear Hst.
@@ -70,9 +80,8 @@ Proof.
   change (getz [Z.of_nat (S h); Z.of_nat (S w)] 0) with (Z.of_nat (S h)).
   change (getz [Z.of_nat (S h); Z.of_nat (S w)] 1) with (Z.of_nat (S w)).
   destruct (masyu_dims (S h) (S w) [circ]) as [-> ->].
-  replace ((Z.of_nat (S h) <? 1) || (Z.of_nat (S w) <? 1))%Z with false
-    by (symmetry; apply orb_false_iff; split; apply Z.ltb_ge; lia).
-  replace (S h - 1) with h by lia. replace (S w - 1) with w by lia.
+  replace (Z.of_nat (S h) - 1)%Z with (Z.of_nat h) by lia. replace (Z.of_nat (S w) - 1)%Z with (Z.of_nat w) by lia.
+  rewrite frame_cycle_prim_z_nat.
   destruct (frame_cycle_prim_ok h w) as [st1 [Hc _]]. rewrite Hc.
   replace (Nat.ltb (length circ) (S h * S w)) with false by (symmetry; apply Nat.ltb_ge; exact Hl).
   eexists. reflexivity.
